@@ -6,6 +6,16 @@
 
 Exec *g_exec = nullptr;
 
+// every close() issued by library code goes through here (-Wl,--wrap=close): ownership log for C20
+extern "C" int __real_close(int fd);
+extern "C" int __wrap_close(int fd) {
+    int r = __real_close(fd);
+    int e = errno;
+    if (g_exec && !g_exec->harness_closing) g_exec->on_lib_close(fd, r, e);
+    errno = e;
+    return r;
+}
+
 #include "exec_model.inc"
 #include "exec_cb.inc"
 #include "exec_ops.inc"
@@ -35,6 +45,26 @@ void Exec::check_pending_frees() {
 }
 
 bool Exec::timers_active() { return false; }
+
+void Exec::on_lib_close(int fd, int r, int e) {
+    trace("lib close(" + std::to_string(fd) + ") -> " + std::to_string(r));
+    if (r != 0) { fail("C20.1", "the library closed descriptor " + std::to_string(fd) + " which is not open (errno " + std::to_string(e) + "): double close or a descriptor it never owned"); return; }
+    if (fds_before.count(fd)) { fail("C20.1", "the library closed descriptor " + std::to_string(fd) + " which was open before the context existed"); return; }
+    for (int k = 0; k < 8; k++) {
+        if (harness_fd[k][1] == fd) { fail("C20.1", "the library closed the harness' own descriptor " + std::to_string(fd) + " (write end of a pipe it was never given)"); return; }
+        if (harness_fd[k][0] == fd && refused_fd_reg == k) { fail("C20.2", "a refused (duplicate) registration of descriptor " + std::to_string(fd) + " closed it: rejected registrations must leave no trace"); return; }
+        if (harness_fd[k][0] == fd) {
+            // a user descriptor: only legitimate for a registration made with the auto-close flag
+            bool autoclose_reg = false;
+            for (auto &i : insts) { auto it = i.fds.find(k); if (it != i.fds.end() && it->second.autoclose && !it->second.dup) autoclose_reg = true; }
+            if (harness_fd_open[k] && !autoclose_reg && !autoclose_pending[k]) { fail("C20.2", "the library closed user descriptor " + std::to_string(fd) + " although it was not registered with M_SRC_FD_AUTOCLOSE"); return; }
+            if (autoclose_closed[k]) { fail("C20.2", "auto-close descriptor " + std::to_string(fd) + " closed more than once"); return; }
+            autoclose_closed[k] = true; autoclose_pending[k] = false; harness_fd_open[k] = false;
+            harness_fd[k][0] = -1; // the number may be reused by anybody from now on
+            cls.insert("autoclose-fd-closed-by-library"); nt["C20"] = true;
+        }
+    }
+}
 
 std::set<int> Exec::open_fds() {
     std::set<int> s;
@@ -153,10 +183,14 @@ void Exec::do_op3(const Op &op, bool top, Inst *S, Inst *T, bool deny) {
         if (!S || !handle(S)) break;
         if (skip_if_deny()) break;
         int idx = (int)(((op.a % 8) + 8) % 8);
+        if (autoclose_pending[idx]) { counters_skipped++; break; } // its auto-close is still outstanding (an event retains the source)
         if (!harness_fd_open[idx]) {
+            harness_closing = true;
             if (harness_fd[idx][1] >= 0) { close(harness_fd[idx][1]); harness_fd[idx][1] = -1; }
+            harness_closing = false;
             if (pipe2(harness_fd[idx], O_NONBLOCK | O_CLOEXEC) != 0) break;
-            harness_fd_open[idx] = true;
+            harness_fd_open[idx] = true; autoclose_closed[idx] = false;
+            { struct stat st; fstat(harness_fd[idx][0], &st); harness_ino[idx] = st.st_ino; }
         }
         int fd = harness_fd[idx][0];
         bool legal = mod_ok(this, S);
@@ -168,11 +202,12 @@ void Exec::do_op3(const Op &op, bool top, Inst *S, Inst *T, bool deny) {
             long b = op.b;
             // what "the same key" means for a duplicated descriptor is not specified (the source is keyed by the duplicate's number)
             if (present && (S->fds[idx].dup || (b & 2))) { counters_skipped++; break; }
-            if (present && (b & 3)) b &= ~3L; // never hand ownership of a number that is refused
+            refused_fd_reg = present ? idx : -1; // a refused registration leaves no trace: in particular it must not close the descriptor
             int lf = 0; if (b & 1) lf |= M_SRC_FD_AUTOCLOSE; if (b & 2) lf |= M_SRC_DUP; if (b & 4) lf |= M_SRC_ONESHOT;
             long token = 0x2000 + next_token++;
             int r = m_mod_src_register_fd(handle(S), fd, (m_src_flags)lf, (void *)token);
             if (!legal) { RET_ILLEGAL("C01.2", "m_mod_src_register_fd", r); break; }
+            refused_fd_reg = -1;
             if (present) { if (r != -EEXIST) fail("C09.1", "registering descriptor source " + std::to_string(fd) + " twice returned " + std::to_string(r) + ", expected -EEXIST"); if (S->fds.size() >= 2) nt["C09"] = true; cls.insert("duplicate-source-registration"); break; }
             RET_LEGAL("C09.1", "m_mod_src_register_fd", r);
             FdSrc s{idx, fd, (bool)(b & 1), (bool)(b & 2), (bool)(b & 4), token};
@@ -291,11 +326,18 @@ void Exec::do_op3(const Op &op, bool top, Inst *S, Inst *T, bool deny) {
 }
 
 void Exec::close_harness_fds() {
+    harness_closing = true;
+    // a descriptor registered without auto-close (or never registered) must still be open and still be the same pipe (C20.2)
+    for (int i = 0; i < 8 && ok(); i++) if (harness_fd_open[i] && harness_fd[i][0] >= 0 && !autoclose_pending[i]) {
+        struct stat st;
+        if (fstat(harness_fd[i][0], &st) != 0 || st.st_ino != harness_ino[i]) fail("C20.2", "user descriptor " + std::to_string(harness_fd[i][0]) + " that was never given to the library with auto-close is no longer the open pipe it was");
+    }
     for (int i = 0; i < 8; i++) {
         if (harness_fd_open[i] && harness_fd[i][0] >= 0) close(harness_fd[i][0]);
         if (harness_fd[i][1] >= 0) close(harness_fd[i][1]);
         harness_fd[i][0] = harness_fd[i][1] = -1; harness_fd_open[i] = false;
     }
+    harness_closing = false;
 }
 
 void Exec::epilogue() {
@@ -351,7 +393,7 @@ rt::Verdict Exec::run() {
     signal(SIGPIPE, SIG_IGN); // the harness may write to a pipe whose read end an auto-close source already closed
     track::install();
     track::st().error.clear();
-    for (int i = 0; i < 8; i++) { harness_fd[i][0] = harness_fd[i][1] = -1; harness_fd_open[i] = false; fd_bytes[i] = 0; }
+    for (int i = 0; i < 8; i++) { harness_fd[i][0] = harness_fd[i][1] = -1; harness_fd_open[i] = false; fd_bytes[i] = 0; autoclose_pending[i] = autoclose_closed[i] = false; harness_ino[i] = 0; }
     fds_before = open_fds();
     track::st().on_free = payload_free_hook;
     t_start = now();
